@@ -1,7 +1,7 @@
-\* design check with entries: (quick tier) <= 1 include and <= 1 exclude from the 16-entry mixed pool x 6 version sets x 16 flag seeds; all laws
+\* design check with entries: (quick tier) <= 1 include and <= 1 exclude from the 16-entry mixed pool x 3 version sets x 8 flag seeds; all laws
 CONSTANTS
   NZ = 2
-  AxisVs <- EntVs
+  AxisVs <- ListVs
   AxisPs <- EntPs2
   AxisCs = {{}}
   AxisZs = {{}}
@@ -10,7 +10,7 @@ CONSTANTS
   TriTls = {"unset", "false"}
   TriCerts = {"unset", "true"}
   TriTrailers = {"unset"}
-  TriHdh1 = {"unset", "true"}
+  TriHdh1 = {"unset"}
   TriGet = {"unset"}
   TriLim = {"unset"}
   EntryPool <- EntrySmallPool
